@@ -141,6 +141,61 @@ for d in range(0, 4 if THOROUGH else 3):
     hop_scenario(d)
 
 
+# dynamically generated task functions across rounds: each round compiles a fresh task function, runs it down to its nursery's
+# __aexit__, extracts, and drops every reference (function, task, Stack) so that the next round's code object can land at the
+# same address - analysis results keyed by anything but the live code object itself would go stale
+import gc
+SHAPES = {
+    "plain": "async def task_fn(trio, sleeper):\n{pad}\n    async with trio.open_nursery() as nursery:\n        nursery.start_soon(sleeper)\n        x = 2\n",
+    "nested": "async def task_fn(trio, sleeper):\n{pad}\n    async with trio.open_nursery() as outer:\n        outer.start_soon(sleeper)\n        async with trio.open_nursery() as nursery:\n            nursery.start_soon(sleeper)\n            x = 2\n",
+    "try_except": "async def task_fn(trio, sleeper):\n{pad}\n    async with trio.open_nursery() as nursery:\n        nursery.start_soon(sleeper)\n        try:\n            x = 2\n        except KeyError:\n            x = 3\n",
+    "cond_return": "async def task_fn(trio, sleeper):\n{pad}\n    async with trio.open_nursery() as nursery:\n        nursery.start_soon(sleeper)\n        if nursery is not None:\n            return 5\n",
+}
+def _mk(src):
+    ns = {}; exec(compile(src, "<generated-task>", "exec"), ns); return ns["task_fn"]
+def _size(fn): return (sys.getsizeof(fn.__code__) + 15) // 16
+def _padded():
+    src = lambda shape, n: SHAPES[shape].format(pad="\n".join(["    x = 1"] * n) or "    pass")
+    target = max(_size(_mk(src(sh, 0))) for sh in SHAPES) + 1
+    out = {}
+    for sh in SHAPES:
+        for n in range(300):
+            if _size(_mk(src(sh, n))) == target:
+                out[sh] = src(sh, n); break
+    return out
+async def _sleeper(): await trio.sleep_forever()
+async def _round(fn):
+    problems = []
+    async with trio.open_nursery() as root:
+        root.start_soon(fn, trio, _sleeper)
+        await trio.testing.wait_all_tasks_blocked(0.01)
+        (task,) = root.child_tasks
+        with warnings.catch_warnings(record=True) as caught:
+            warnings.simplefilter("always")
+            st = stackscope.extract(task, recurse_child_tasks=True)
+        got = [c.obj for f in st.frames for c in f.contexts if isinstance(c.obj, trio.Nursery)]
+        if got != list(task.child_nurseries) or st.error is not None or caught:
+            problems.append(f"nurseries {got} != {list(task.child_nurseries)}; error={st.error!r}; warnings={[str(w.message)[:60] for w in caught]}")
+        del st, task
+        root.cancel_scope.cancel()
+    return problems
+import trio.testing
+srcs = _padded()
+prev_id, keep, reused = None, [], 0
+for rnd, shape in enumerate(list(srcs) * 3):
+    fn = _mk(srcs[shape])
+    for _ in range(200):          # prefer a code object that lands where the previous round's lived; park the near-misses
+        if prev_id is None or id(fn.__code__) == prev_id: break
+        keep.append(fn); fn = _mk(srcs[shape])
+    reused += prev_id is not None and id(fn.__code__) == prev_id
+    prev_id = id(fn.__code__)
+    leg.case(("generated-rounds", rnd, shape), True)
+    for pr in trio.run(_round, fn):
+        leg.violation(("generated-rounds", shape), f"round {rnd} ({shape}, previous address reused: {reused} times so far): {pr}")
+    del fn; gc.collect()
+leg.extra.update(rounds_reusing_previous_code_address=int(reused))
+
+
 # the other direction: a FOREIGN thread (not started by Trio) inside from_thread.run(afn, trio_token=...) continues into the
 # system task serving it, and on through every further to_thread / reentrant from_thread alternation
 def foreign_thread_scenario(depth):
